@@ -1,5 +1,6 @@
-CONSTANTS Kind = "storage" MaxOpens = 2 FixOpenLeak = TRUE FixDescribeLeak = FALSE CloseStateFirst = FALSE SetKeepsRunning = TRUE Strict = FALSE
+CONSTANTS Kind = "storage" MaxOpens = 2 FixOpenLeak = TRUE FixDescribeLeak = FALSE CloseStateFirst = FALSE SetKeepsRunning = TRUE SetStopsRejected = TRUE Strict = FALSE
 SPECIFICATION Spec
 VIEW View
 CHECK_DEADLOCK FALSE
 INVARIANTS TypeOK NoErr NoLeak ReportedStateFollowsDriver ClosedMeansClosed RunningIsTrue
+PROPERTIES SetLeavesNoRunner
